@@ -22,11 +22,11 @@ func c12FarmEnv(height int64) (*vEnv, keeper.Keeper) {
 }
 
 // C12 farm: a state reached through real operations (create pool, stakes, optionally a harvest) is exported
-// at a symbolic-ish height (before, or exactly at, the pool's end height), validates, imports without panic
+// mid-life, in the block of the pool's end height, after the pool has ended, or after its creator destroyed it; it validates, imports without panic
 // into a fresh store at the same height, every pool / stake / pending-reward query answers identically, the
 // end-height queue is rebuilt, and a second export equals the first.
 func VerifC12_Farm() {
-	verifExpect("roundtrip")
+	verifExpect("roundtrip", "ended", "destroyed")
 	const h0 = int64(10)
 	e, k := c12FarmEnv(h0)
 	// a parameter set the authority has changed (every figure differs from the defaults): the export carries it
@@ -65,8 +65,22 @@ func VerifC12_Farm() {
 	// exported in the middle of the pool's life, or in the very block of its end height (still active)
 	p, _ := k.GetPool(at(h0), pool.Id)
 	hx := h0 + 3
-	if verifChoice("atEndHeight", 2) == 1 {
+	switch verifChoice("exportWhen", 4) {
+	case 1:
 		hx = p.EndHeight
+	case 2:
+		// the pool has ended: the end-block handler of its end height has run (what is left goes back to the
+		// creator, every rule's remaining reward becomes zero); ended pools stay in the store - farmers
+		// withdraw from them later
+		EndBlocker(at(p.EndHeight), k)
+		hx = p.EndHeight + 1
+		verifCover("ended")
+	case 3:
+		// the creator destroys the pool
+		_, err = k.DestroyPool(at(hx), pool.Id, creator)
+		verifAssume(err == nil)
+		hx++
+		verifCover("destroyed")
 	}
 	ctx := at(hx)
 	g := ExportGenesis(ctx, k)
